@@ -22,7 +22,27 @@ Scheme
     `raise NexusReader.BlockTerminatedException` -> the result GBte; `try: x = E except K: H` -> a match on the
     error class E's primitive raises
 Whitelist: any statement, expression, call or attribute not listed here raises Unsupported (py2coq then writes a
-stub and every dependent proof breaks)."""
+stub and every dependent proof breaks).
+
+Part 2 (class Fn2, primitives coq/Model/C20NexusPrims2.v): the MATRIX-statement methods
+
+    NexusReader._parse_dimensions_statement   NexusReader._get_taxon
+    NexusReader._process_discrete_matrix_data NexusReader._parse_matrix_statement
+
+proved equal to the skeleton's parse_dimensions / get_taxon / parse_matrix in Proofs/C20GenNexusMatrix*.v.
+  * parameters are arguments of the generated Definition; EVERY attribute read is a getter on the current state
+  * `self._m(..)` with _m translated earlier in this file is a call of the generated function (its Section variables
+    and - for a part-1 method - the attributes it only reads, taken from the current state, are passed); a callee that
+    extends its first parameter in place and returns it is called on `char_block[taxon]` and the row is stored back
+  * `try: while ..: .. except NexusReader.BlockTerminatedException: H` -> the loop returns a gres; GBte (raised by a
+    callee) abandons the loop, H runs on the state at the raise and what the loop assigned is undefined in H.  Outside
+    a try an escaping BlockTerminatedException is RErr OtherErr
+  * `a < self._file_specified_nchar` (None-able int) is a monadic test: TypeError on None; `not x or a < x` short-circuits
+  * `if x is None: raise ..` refines x to not-None afterwards; `int(t)` under `if t.isdecimal():` is the total py_int,
+    under `if t.isdigit():` the monadic py_int_digit (ValueError on a digit that is not decimal: the variant form that
+    no longer equals the skeleton), anywhere else it is refused
+  * untranslated callees are primitives: _get_taxon_namespace, _new_char_matrix, _build_state_alphabet,
+    _process_continuous_matrix_data, TaxonNamespace.require_taxon / get_taxon, CharacterMatrix.__getitem__ / __iter__"""
 import ast
 import os
 
@@ -54,7 +74,7 @@ EXC_CLASS = {"TypeError": "TypeErr", "IndexError": "IndexErr", "KeyError": "KeyE
 
 HEADER = """(* GENERATED by py/dv/gen_nexuschars.py from src/dendropy/dataio/nexusreader.py. DO NOT EDIT. *)
 From Coq Require Import String Ascii ZArith List Bool.
-From DV Require Import Model.PyPrims Gen.ReaderLoops Model.Tokenizer Model.Newick Model.C20Model Model.C20Nexus2 Model.C20NexusPrims.
+From DV Require Import Model.PyPrims Gen.ReaderLoops Model.Tokenizer Model.Newick Model.C20Model Model.C20Nexus2 Model.C20NexusPrims Model.C20NexusPrims2.
 Import ListNotations.
 Close Scope string_scope.
 Open Scope list_scope.
@@ -520,6 +540,555 @@ class Fn(object):
         return "\n".join(lines)
 
 
+
+# =================================================================================================================
+# part 2: the MATRIX-statement methods (primitives: coq/Model/C20NexusPrims2.v)
+# =================================================================================================================
+FUNCS2 = ["_parse_dimensions_statement", "_get_taxon", "_process_discrete_matrix_data", "_parse_matrix_statement"]
+PARAMS2 = {
+    "_parse_dimensions_statement": [],
+    "_get_taxon": [("taxon_namespace", "tnsref"), ("label", "ostr")],
+    "_process_discrete_matrix_data": [("char_block", "cbref")],
+    "_parse_matrix_statement": [("block_title", "ostr"), ("link_title", "ostr")],
+}
+COQ_T.update({"ostr": "(option str)", "tnsref": "nat", "taxon": "nat", "otaxon": "(option nat)", "cbref": "cbref",
+              "rowref": "(option nat)", "optZ": "(option Z)", "dtype": "dtype"})
+# every attribute access of these methods goes through the state
+GETTERS2 = {"_file_specified_ntax": ("get_file_specified_ntax", "optZ"), "_file_specified_nchar": ("get_file_specified_nchar", "optZ"),
+            "_data_type": ("get_data_type", "dtype"), "_interleave": ("get_interleave", "bool"), "_symbols": ("get_symbols", "str"),
+            "_match_char": ("get_match_char", "strs")}
+SETTERS2 = {"_file_specified_ntax": ("set_file_specified_ntax", "Z"), "_file_specified_nchar": ("set_file_specified_nchar", "Z")}
+FETCHES2 = {"next_token": ("py_next_token st", "ostr"), "require_next_token": ("py_require_next_token st", "str"),
+            "require_next_token_ucase": ("py_require_next_token_ucase upper st", "str")}
+LOCAL_NONE = {"first_sequence_defined": "rowref"}          # locals initialised with None: their declared type
+DTYPE_NAMES = ("dna", "rna", "nucleotide", "protein", "continuous", "standard")
+ERROR_CALLS2 = ERROR_CALLS | {"_too_many_taxa_error"}
+GLOBALS2 = [("fxc", "bool"), ("fxa", "bool"), ("upper", "str -> str"), ("lower", "str -> str"), ("dval", "Z -> option Z"),
+            ("xdigit", "Z -> bool"), ("sym_ok", "Z -> Z -> bool"), ("is_float", "str -> bool"), ("F", "nat")]
+GLOBALS1 = ["upper", "lower", "sym_ok", "F"]              # the Section variables of the part-1 methods
+CASE_KW = "case_sensitive_taxon_labels"
+
+
+def used_globals(names, text):
+    import re
+    text = "\n".join(l for l in text.split("\n") if not l.startswith("Variable "))
+    return [g for g in names if re.search(r"(?<![A-Za-z0-9_'])%s(?![A-Za-z0-9_'])" % g, text)]
+
+
+def is_bte_type(e):
+    return Fn.is_bte(e)
+
+
+class Fn2(Fn):
+    """methods whose parameters are arguments of the generated Definition (not Section variables), whose attribute
+    reads are getters on the current state, and which may call methods translated before them (registry)"""
+
+    def __init__(self, node, registry):
+        self.registry = registry
+        self.node = node
+        self.name = node.name
+        self.cname = "NexusReader" + node.name
+        self.params = list(PARAMS2[node.name])
+        got = [a.arg for a in node.args.args[1:]]
+        if got != [p for p, _t in self.params] or node.args.vararg or node.args.kwarg or node.args.kwonlyargs:
+            raise Unsupported("%s: parameters %r" % (self.name, got))
+        self.written = set()
+        self.readonly = []
+        self.bte = False
+        self.elem = {}
+        self.loops = {}
+        self.defs = []
+        self.btx = None            # "try": inside `try: while .. except NexusReader.BlockTerminatedException`
+        self.gres_loop = False     # the loop being compiled returns a gres
+        self.digits = set()        # names known to satisfy .isdigit() on the current path (int() of them CAN fail)
+        self.decimals = set()      # names known to satisfy .isdecimal() on the current path (int() of them cannot)
+        self.ret_type = None
+        self.returns_param = None
+        n = 0
+        for x in self.preorder(self.node):
+            if isinstance(x, (ast.While, ast.For)):
+                n += 1
+                self.loops[id(x)] = n
+            if isinstance(x, ast.Raise) and self.is_bte(x.exc):
+                raise Unsupported("%s raises BlockTerminatedException itself" % self.name)
+
+    # ---- expressions --------------------------------------------------------------------------
+    def the_cb(self, env):
+        cbs = [v for v, t in env.items() if t == "cbref"]
+        if len(cbs) != 1:
+            raise Unsupported("no unique CharacterMatrix variable")
+        return cbs[0]
+
+    def row_expr(self, e, env):
+        """char_block[taxon] -> (cb, taxon)"""
+        if (isinstance(e, ast.Subscript) and isinstance(e.value, ast.Name) and env.get(e.value.id) == "cbref"
+                and isinstance(e.slice, ast.Name) and env.get(e.slice.id) == "taxon"):
+            return e.value.id, e.slice.id
+        return None
+
+    def expr2(self, e, env, pre):
+        """-> (term, type); `pre` collects the `let st := ..` lines that must precede the statement (char_block[taxon]
+        creates the row).  type "mbool": a term of type nr bool"""
+        if is_self_attr(e):
+            if e.attr in GETTERS2:
+                g, t = GETTERS2[e.attr]
+                return "(%s st)" % g, t
+            raise Unsupported("attribute self.%s" % e.attr)
+        if isinstance(e, ast.Constant) and e.value is None:
+            raise Unsupported("None outside a declared initialisation")
+        if isinstance(e, ast.Attribute) and isinstance(e.value, ast.Name) and env.get(e.value.id) == "cbref":
+            if e.attr == "taxon_namespace":
+                return "(py_cb_taxon_namespace st %s)" % e.value.id, "tnsref"
+            if e.attr == "default_state_alphabet":
+                return "(py_cb_default_state_alphabet %s)" % e.value.id, "alpha"
+            raise Unsupported("attribute %s of a CharacterMatrix" % e.attr)
+        if isinstance(e, ast.UnaryOp) and isinstance(e.op, ast.Not):
+            tc = tokenizer_call(e.operand)
+            x, t = self.expr2(e.operand, env, pre)
+            if t == "optZ":
+                return "(py_not_optz %s)" % x, "bool"
+            if t == "bool":
+                return "(negb %s)" % x, "bool"
+            raise Unsupported("not of %s" % t)
+        if isinstance(e, ast.BoolOp):
+            xs = [self.expr2(v, env, pre) for v in e.values]
+            if all(t == "bool" for _x, t in xs):
+                op = {ast.Or: "||", ast.And: "&&"}[type(e.op)]
+                return "(%s)" % (" %s " % op).join(x for x, _t in xs), "bool"
+            if isinstance(e.op, ast.Or) and len(xs) == 2 and xs[0][1] == "bool" and xs[1][1] == "mbool":
+                return "(if %s then ROk true else %s)" % (xs[0][0], xs[1][0]), "mbool"      # short circuit
+            raise Unsupported("boolean operator on %r" % [t for _x, t in xs])
+        if isinstance(e, ast.Compare) and len(e.ops) == 1:
+            op, l, r = e.ops[0], e.left, e.comparators[0]
+            if isinstance(op, (ast.Is, ast.IsNot)) and isinstance(r, ast.Constant) and r.value is None:
+                a, ta = self.expr2(l, env, pre)
+                if ta in ("rowref", "otaxon", "ostr"):
+                    x = "(py_is_none %s)" % a
+                    return (x if isinstance(op, ast.Is) else "(negb %s)" % x), "bool"
+                raise Unsupported("is None on %s" % ta)
+            if isinstance(op, (ast.Eq, ast.NotEq)) and isinstance(r, ast.Constant) and isinstance(r.value, str):
+                a, ta = self.expr2(l, env, pre)
+                if ta == "ostr":
+                    x = "(ostr_is %s %s)" % (a, coq_string(r.value))
+                elif ta == "str":
+                    x = "(str_is %s %s)" % (a, coq_string(r.value))
+                elif ta == "dtype" and r.value in DTYPE_NAMES:
+                    x = "(dtype_is %s %s)" % (a, coq_string(r.value))
+                else:
+                    raise Unsupported("== literal on %s" % ta)
+                return (x if isinstance(op, ast.Eq) else "(negb %s)" % x), "bool"
+            if isinstance(op, (ast.Lt, ast.LtE)):
+                a, ta = self.expr2(l, env, pre)
+                b, tb = self.expr2(r, env, pre)
+                if ta == "Z" and tb == "optZ":
+                    return "(%s %s %s)" % ("py_lt_z_optz" if isinstance(op, ast.Lt) else "py_le_z_optz", a, b), "mbool"
+                if ta == tb == "Z":
+                    return "(%s %s %s)" % (a, "<?" if isinstance(op, ast.Lt) else "<=?", b), "bool"
+                raise Unsupported("< on %s, %s" % (ta, tb))
+            raise Unsupported("comparison %s" % type(op).__name__)
+        if isinstance(e, ast.Call):
+            f = e.func
+            tc = tokenizer_call(e)
+            if tc and tc[0] == "is_eof" and not tc[1] and not e.keywords:
+                return "(py_is_eof st)", "bool"
+            if isinstance(f, ast.Name) and f.id == "len" and len(e.args) == 1 and not e.keywords:
+                a = e.args[0]
+                row = self.row_expr(a, env)
+                if row:
+                    pre.append("let st := py_cb_touch st %s %s in" % row)
+                    return "(py_cb_row_len st %s %s)" % row, "Z"
+                if isinstance(a, ast.Name) and env.get(a.id) == "tnsref":
+                    return "(py_tns_len st %s)" % a.id, "Z"
+                raise Unsupported("len of %s" % ast.dump(a)[:60])
+            if isinstance(f, ast.Attribute) and f.attr in ("isdigit", "isdecimal") and not e.args and not e.keywords \
+                    and isinstance(f.value, ast.Name) and env.get(f.value.id) == "str":
+                if f.attr == "isdecimal":
+                    return "(py_isdecimal dval %s)" % f.value.id, "bool"
+                # str.isdigit() also accepts digits that are not decimal (superscripts, circled digits: xdigit)
+                return "(py_isdigit dval xdigit %s)" % f.value.id, "bool"
+            if isinstance(f, ast.Name) and f.id == "int" and len(e.args) == 1 and not e.keywords \
+                    and isinstance(e.args[0], ast.Name) and env.get(e.args[0].id) == "str":
+                x = e.args[0].id
+                if x in self.decimals:
+                    return "(py_int dval %s)" % x, "Z"                 # int() of a decimal string cannot fail
+                if x in self.digits:
+                    # guarded by isdigit() only: int() raises ValueError on a non-decimal digit
+                    pre.append("dn int_%s_ <- py_int_digit dval %s ;;" % (x, x))
+                    return "int_%s_" % x, "Z"
+                raise Unsupported("int(%s) not guarded by %s.isdecimal() / .isdigit()" % (x, x))
+            raise Unsupported("call %s" % ast.dump(e)[:80])
+        if isinstance(e, ast.Name):
+            if e.id in env and env[e.id] not in ("exc", "undef"):
+                return e.id, env[e.id]
+            raise Unsupported("name %s" % e.id)
+        if isinstance(e, ast.Constant) and isinstance(e.value, str):
+            return super().expr(e, env)
+        raise Unsupported("expression %s" % ast.dump(e)[:80])
+
+    def expr(self, e, env):
+        pre = []
+        x, t = self.expr2(e, env, pre)
+        if pre:
+            raise Unsupported("row access in a position that cannot create the row first")
+        if t == "mbool":
+            raise Unsupported("comparison with None-able int outside an if test")
+        return x, t
+
+    # ---- calls of translated methods / primitives ---------------------------------------------
+    def bind_args(self, call, params):
+        """positional + keyword arguments -> expressions in parameter order"""
+        out = list(call.args)
+        names = [p for p, _t in params]
+        if len(out) > len(names):
+            raise Unsupported("too many arguments")
+        rest = dict((k.arg, k.value) for k in call.keywords)
+        if None in rest:
+            raise Unsupported("**kwargs")
+        for p in names[len(out):]:
+            if p not in rest:
+                raise Unsupported("argument %s missing" % p)
+            out.append(rest.pop(p))
+        if rest:
+            raise Unsupported("unknown keyword %r" % sorted(rest))
+        return out
+
+    def arg_value(self, a, want, env, pre):
+        row = self.row_expr(a, env)
+        if row and want == "states":
+            pre.append("let st := py_cb_touch st %s %s in" % row)
+            return "(py_cb_row st %s %s)" % row
+        x, t = self.expr2(a, env, pre)
+        if t == want:
+            return x
+        if t == "rowref" and want == "first":
+            return "(py_rowref_len st %s %s)" % (self.the_cb(env), x)
+        raise Unsupported("argument of type %s where %s is expected" % (t, want))
+
+    def method_call(self, call, env, pre):
+        """self._m(...) with _m translated before -> (callee, term)"""
+        callee = self.registry[call.func.attr]
+        args = self.bind_args(call, callee.params)
+        if isinstance(callee, Fn2):
+            gl = used_globals([g for g, _t in GLOBALS2], callee.text)
+            ro = []
+        else:
+            gl = used_globals(GLOBALS1, callee.text)
+            ro = []
+            for a in callee.readonly:
+                g, t = GETTERS2[a]
+                want = ATTR_TYPES[a]
+                if t == want:
+                    ro.append("(%s st)" % g)
+                elif t == "optZ" and want == "Z":
+                    pre.append("dn %s_ <- py_optz_int (%s st) ;;" % (a.strip("_"), g))
+                    ro.append("%s_" % a.strip("_"))
+                else:
+                    raise Unsupported("attribute %s: %s where %s is expected" % (a, t, want))
+        vals = [self.arg_value(a, t, env, pre) for a, (_p, t) in zip(args, callee.params)]
+        return callee, "%s %s st" % (callee.cname, " ".join(gl + ro + vals))
+
+    def is_method_call(self, e):
+        return isinstance(e, ast.Call) and is_self_attr(e.func) and e.func.attr in self.registry
+
+    def bte_arm(self):
+        # an uncaught BlockTerminatedException leaves the reader as an exception outside the DataParseError family
+        return "ROk (GBte st)" if self.btx == "try" else "RErr OtherErr"
+
+    def case_kw_ok(self, call):
+        kws = dict((k.arg, k.value) for k in call.keywords)
+        return (not call.args and sorted(kws) == ["is_case_sensitive", "label"] and is_self_attr(kws["is_case_sensitive"])
+                and kws["is_case_sensitive"].attr == CASE_KW)
+
+    # ---- statements ---------------------------------------------------------------------------
+    def emit_pre(self, pre, body):
+        return "\n".join(pre + [body])
+
+    def assign(self, tgt, val, env, k):
+        pre = []
+        tc = tokenizer_call(val)
+        if isinstance(tgt, ast.Name) and tc and tc[0] in FETCHES2 and not tc[1] and not val.keywords:
+            env = dict(env)
+            term, env[tgt.id] = FETCHES2[tc[0]]
+            return "dn p_ <- %s ;;\nlet '(%s, st) := p_ in\n%s" % (term, tgt.id, k(env))
+        if is_self_attr(tgt):
+            if tgt.attr not in SETTERS2:
+                raise Unsupported("assignment to self.%s" % tgt.attr)
+            s, want = SETTERS2[tgt.attr]
+            x, t = self.expr2(val, env, pre)
+            if t != want:
+                raise Unsupported("self.%s = <%s>" % (tgt.attr, t))
+            return self.emit_pre(pre, "let st := %s st %s in\n%s" % (s, x, k(env)))
+        if not isinstance(tgt, ast.Name):
+            raise Unsupported("assignment target %s" % ast.dump(tgt)[:60])
+        env = dict(env)
+        v = tgt.id
+        if isinstance(val, ast.Constant) and val.value is None:
+            if v not in LOCAL_NONE:
+                raise Unsupported("%s = None: undeclared local" % v)
+            env[v] = LOCAL_NONE[v]
+            return "let %s := None in\n%s" % (v, k(env))
+        row = self.row_expr(val, env)
+        if row:
+            if LOCAL_NONE.get(v) != "rowref":
+                raise Unsupported("%s = <row>: undeclared alias" % v)
+            env[v] = "rowref"
+            return "let st := py_cb_touch st %s %s in\nlet %s := Some %s in\n%s" % (row[0], row[1], v, row[1], k(env))
+        if self.is_method_call(val):
+            callee, term = self.method_call(val, env, pre)
+            if callee.ret_type is None:
+                raise Unsupported("%s returns nothing" % callee.name)
+            if callee.bte:
+                raise Unsupported("value of a method that raises BlockTerminatedException")
+            env[v] = callee.ret_type
+            return self.emit_pre(pre, "dn r_ <- %s ;;\nlet '(%s, st) := r_ in\n%s" % (term, v, k(env)))
+        if isinstance(val, ast.Call) and is_self_attr(val.func):
+            m = val.func.attr
+            if m == "_get_taxon_namespace" and len(val.args) == 1 and not val.keywords:
+                x = self.arg_value(val.args[0], "ostr", env, pre)
+                env[v] = "tnsref"
+                return self.emit_pre(pre, "dn p_ <- py_get_taxon_namespace upper st %s ;;\nlet '(%s, st) := p_ in\n%s" % (x, v, k(env)))
+            if m == "_new_char_matrix":
+                a = self.bind_args(val, [("data_type", "dtype"), ("taxon_namespace", "tnsref"), ("title", "ostr")])
+                xs = [self.arg_value(x, t, env, pre) for x, t in zip(a, ("dtype", "tnsref", "ostr"))]
+                env[v] = "cbref"
+                return self.emit_pre(pre, "let '(%s, st) := py_new_char_matrix st %s in\n%s" % (v, " ".join(xs), k(env)))
+            raise Unsupported("call of self.%s" % m)
+        if (isinstance(val, ast.Call) and isinstance(val.func, ast.Attribute) and isinstance(val.func.value, ast.Name)
+                and env.get(val.func.value.id) == "tnsref" and val.func.attr in ("require_taxon", "get_taxon") and self.case_kw_ok(val)):
+            lab = dict((kw.arg, kw.value) for kw in val.keywords)["label"]
+            x = self.arg_value(lab, "ostr", env, pre)
+            env[v] = "otaxon"
+            if val.func.attr == "require_taxon":
+                return self.emit_pre(pre, "let '(%s, st) := py_require_taxon lower st %s %s in\n%s" % (v, val.func.value.id, x, k(env)))
+            return self.emit_pre(pre, "let %s := py_get_taxon lower st %s %s in\n%s" % (v, val.func.value.id, x, k(env)))
+        x, t = self.expr2(val, env, pre)
+        if t == "mbool":
+            raise Unsupported("assignment of a None-able comparison")
+        env[v] = t
+        return self.emit_pre(pre, "let %s := %s in\n%s" % (v, x, k(env)))
+
+    def call_stmt(self, c, env, k):
+        pre = []
+        if self.is_method_call(c):
+            callee, term = self.method_call(c, env, pre)
+            if callee.returns_param is not None:
+                # the callee extends its first parameter in place and hands it back: the row is stored
+                if callee.returns_param != callee.params[0][0]:
+                    raise Unsupported("%s returns another parameter" % callee.name)
+                row = self.row_expr(self.bind_args(c, callee.params)[0], env)
+                if not row:
+                    raise Unsupported("result of %s dropped" % callee.name)
+                store = "let st := py_cb_set_row st %s %s v_ in\n" % row
+                pat = "(v_, st)"
+            elif callee.ret_type is not None:
+                raise Unsupported("result of %s dropped" % callee.name)
+            else:
+                store, pat = "", "st"
+            if callee.bte:
+                return self.emit_pre(pre, "dn r_ <- %s ;;\nmatch r_ with\n| GBte st => %s\n| GVal %s =>\n%s%s\nend" % (
+                    term, self.bte_arm(), pat, store, k(env)))
+            if store:
+                return self.emit_pre(pre, "dn r_ <- %s ;;\nlet '%s := r_ in\n%s%s" % (term, pat, store, k(env)))
+            return self.emit_pre(pre, "dn st <- %s ;;\n%s" % (term, k(env)))
+        if isinstance(c, ast.Call) and is_self_attr(c.func) and c.func.attr == "_process_continuous_matrix_data" \
+                and len(c.args) == 1 and not c.keywords:
+            x = self.arg_value(c.args[0], "cbref", env, pre)
+            return self.emit_pre(pre, "dn st <- py_process_continuous_matrix_data fxc fxa upper lower sym_ok is_float F %s st ;;\n%s" % (x, k(env)))
+        raise Unsupported("call statement %s" % ast.dump(c)[:80])
+
+    def rebinding_call(self, s, env):
+        """self._build_state_alphabet(cb, symbols): mutates cb.default_state_alphabet -> (cb, term)"""
+        if (isinstance(s, ast.Expr) and isinstance(s.value, ast.Call) and is_self_attr(s.value.func)
+                and s.value.func.attr == "_build_state_alphabet" and len(s.value.args) == 2 and not s.value.keywords
+                and isinstance(s.value.args[0], ast.Name) and env.get(s.value.args[0].id) == "cbref"):
+            pre = []
+            x = self.arg_value(s.value.args[1], "str", env, pre)
+            if pre:
+                raise Unsupported("_build_state_alphabet argument")
+            cb = s.value.args[0].id
+            return cb, "py_build_state_alphabet fxa upper lower st %s %s" % (cb, x)
+        return None
+
+    def stmt(self, s, env, k, lc):
+        if isinstance(s, ast.If):
+            return self.if_(s, env, k, lc)
+        if isinstance(s, ast.While) and not s.orelse:
+            return self.loop2(s, env, k, False, None)
+        if isinstance(s, ast.For) and not s.orelse:
+            return self.forloop2(s, env, k)
+        if isinstance(s, ast.Try):
+            return self.try2(s, env, k, lc)
+        if isinstance(s, ast.Return):
+            if not (isinstance(s.value, ast.Name) and s is self.node.body[-1]):
+                raise Unsupported("return (line %d)" % s.lineno)
+            x, t = self.expr(s.value, env)
+            self.ret_type = t
+            return "ROk (%s, st)" % x
+        rb = self.rebinding_call(s, env)
+        if rb:
+            return "dn %s <- %s ;;\n%s" % (rb[0], rb[1], k(env))
+        return super().stmt(s, env, k, lc)
+
+    def raise_(self, e, env):
+        if isinstance(e, ast.Call) and is_self_attr(e.func) and e.func.attr in ERROR_CALLS2:
+            return "RErr ParseErr"
+        raise Unsupported("raise %s" % ast.dump(e)[:80])
+
+    @staticmethod
+    def ends_in_raise(stmts):
+        return bool(stmts) and isinstance(stmts[-1], ast.Raise)
+
+    def if_(self, s, env, k, lc):
+        t0 = s.test
+        # `if x is None: raise ..` : afterwards x is not None
+        if (isinstance(t0, ast.Compare) and len(t0.ops) == 1 and isinstance(t0.ops[0], ast.Is) and isinstance(t0.left, ast.Name)
+                and isinstance(t0.comparators[0], ast.Constant) and t0.comparators[0].value is None
+                and env.get(t0.left.id) == "otaxon" and not s.orelse and self.ends_in_raise(s.body)):
+            v = t0.left.id
+            env2 = dict(env)
+            env2[v] = "taxon"
+            return "match %s with\n| None =>\n%s\n| Some %s =>\n%s\nend" % (v, self.seq(s.body, dict(env), k, lc), v, k(env2))
+        # `if c: self._build_state_alphabet(cb, ..)`: only rebinds cb
+        if len(s.body) == 1 and not s.orelse:
+            rb = self.rebinding_call(s.body[0], env)
+            if rb:
+                c, t = self.expr(t0, env)
+                if t != "bool":
+                    raise Unsupported("if on %s" % t)
+                return "dn %s <- (if %s then %s else ROk %s) ;;\n%s" % (rb[0], c, rb[1], rb[0], k(env))
+        pre = []
+        c, t = self.expr2(t0, env, pre)
+        old = (set(self.digits), set(self.decimals))
+        if (isinstance(t0, ast.Call) and isinstance(t0.func, ast.Attribute) and t0.func.attr in ("isdigit", "isdecimal")
+                and isinstance(t0.func.value, ast.Name)):
+            (self.digits if t0.func.attr == "isdigit" else self.decimals).add(t0.func.value.id)
+        yes = self.seq(s.body, dict(env), k, lc)
+        self.digits, self.decimals = old
+        no = self.seq(s.orelse, dict(env), k, lc)
+        if t == "bool":
+            return self.emit_pre(pre, "(if %s then\n%s\nelse\n%s)" % (c, yes, no))
+        if t == "mbool":
+            return self.emit_pre(pre, "dn c_ <- %s ;;\n(if c_ then\n%s\nelse\n%s)" % (c, yes, no))
+        raise Unsupported("if on %s" % t)
+
+    # ---- loops --------------------------------------------------------------------------------
+    def pack(self, carried):
+        tup = ", ".join(carried + ["st"])
+        tup = "(%s)" % tup if carried else "st"
+        return "ROk (GVal %s)" % tup if self.gres_loop else "ROk %s" % tup
+
+    def res_type(self, carried, env):
+        ts = [COQ_T[env[v]] for v in carried] + ["nstate"]
+        t = " * ".join(ts)
+        t = "(%s)" % t if len(ts) > 1 else t
+        return "nr (gres %s)" % t if self.gres_loop else "nr %s" % t
+
+    def loop_vars(self, body_stmts, extra, env):
+        asg = self.assigned(body_stmts)
+        carried = [v for v in asg if v in env and env[v] not in ("exc", "undef")]
+        used = self.loaded(body_stmts + extra)
+        ro = [v for v in used if v in env and v not in carried and env[v] not in ("exc", "undef")]
+        return carried, ro
+
+    def loop2(self, s, env, k, in_try, handler):
+        n = self.loops[id(s)]
+        name = "%s_loop%d" % (self.cname, n)
+        carried, ro = self.loop_vars(s.body, [ast.Expr(value=s.test)], env)
+        for v in self.assigned(s.body):
+            if v in env and env[v] == "cbref":
+                raise Unsupported("CharacterMatrix rebound in a loop")
+        envl = dict(env)
+        cond, t = self.expr(s.test, envl)
+        if t != "bool":
+            raise Unsupported("while on %s" % t)
+        args = " ".join(ro + carried + ["st"])
+        save = (self.gres_loop, self.btx)
+        self.gres_loop, self.btx = in_try, ("try" if in_try else None)
+        rec = lambda _e: "%s fuel_ %s" % (name, args)
+        brk = lambda _e: self.pack(carried)
+        body = self.seq(s.body, envl, rec, (brk, rec))
+        sig = " ".join("(%s : %s)" % (v, COQ_T[env[v]]) for v in ro + carried)
+        self.add_def(name, "Fixpoint %s (fuel : nat) %s (st : nstate) {struct fuel} : %s :=\nmatch fuel with\n| O => RFuel\n| S fuel_ =>\nif %s then\n%s\nelse\n%s\nend." % (
+            name, sig, self.res_type(carried, env), cond, body, self.pack(carried)))
+        self.gres_loop, self.btx = save
+        call = "%s F %s" % (name, args)
+        tup = ", ".join(carried + ["st"])
+        pat = "(%s)" % tup if carried else "st"
+        if in_try:
+            # the exception abandons the loop: what the loop assigned is undefined in the handler
+            envh = dict(env)
+            for v in carried:
+                envh[v] = "undef"
+            return "dn r_ <- %s ;;\nmatch r_ with\n| GBte st =>\n%s\n| GVal %s =>\n%s\nend" % (call, handler(envh), pat, k(env))
+        if carried:
+            return "dn r_ <- %s ;;\nlet '%s := r_ in\n%s" % (call, pat, k(env))
+        return "dn st <- %s ;;\n%s" % (call, k(env))
+
+    def try2(self, s, env, k, lc):
+        if (s.orelse or s.finalbody or len(s.handlers) != 1 or s.handlers[0].name is not None
+                or not is_bte_type(s.handlers[0].type) or len(s.body) != 1 or not isinstance(s.body[0], ast.While)
+                or s.body[0].orelse or self.btx is not None):
+            raise Unsupported("try (line %d)" % s.lineno)
+        h = s.handlers[0]
+        return self.loop2(s.body[0], env, k, True, lambda envh: self.seq(h.body, envh, k, lc))
+
+    def forloop2(self, s, env, k):
+        n = self.loops[id(s)]
+        name = "%s_loop%d" % (self.cname, n)
+        if not (isinstance(s.target, ast.Name) and isinstance(s.iter, ast.Name) and env.get(s.iter.id) == "cbref"):
+            raise Unsupported("for loop (line %d)" % s.lineno)
+        carried, ro = self.loop_vars(s.body, [], env)
+        carried = [v for v in carried if v != s.target.id]
+        ro = [v for v in ro if v != s.target.id]
+        if s.iter.id not in ro:
+            ro = [s.iter.id] + ro
+        envl = dict(env)
+        envl[s.target.id] = "taxon"
+        args = " ".join(ro + carried + ["st"])
+        save = (self.gres_loop, self.btx)
+        self.gres_loop, self.btx = False, None
+        rec = lambda _e: "%s items_ %s" % (name, args)
+        body = self.seq(s.body, envl, rec, None)
+        sig = " ".join("(%s : %s)" % (v, COQ_T[env[v]]) for v in ro + carried)
+        self.add_def(name, "Fixpoint %s (taxa_ : list nat) %s (st : nstate) {struct taxa_} : %s :=\nmatch taxa_ with\n| [] => %s\n| %s :: items_ =>\n%s\nend." % (
+            name, sig, self.res_type(carried, env), self.pack(carried), s.target.id, body))
+        self.gres_loop, self.btx = save
+        call = "%s (py_cb_taxa st %s) %s" % (name, s.iter.id, args)
+        env2 = dict(env)
+        env2[s.target.id] = "undef"
+        if carried:
+            return "dn r_ <- %s ;;\nlet '(%s) := r_ in\n%s" % (call, ", ".join(carried + ["st"]), k(env2))
+        return "dn st <- %s ;;\n%s" % (call, k(env2))
+
+    # ---- the method ---------------------------------------------------------------------------
+    def emit(self):
+        env = dict((p, t) for p, t in self.params)
+        main = self.seq(list(self.node.body), env, lambda _e: "ROk st", None)
+        lines = ["(* NexusReader.%s  (nexusreader.py, line %d) *)" % (self.name, self.node.lineno),
+                 "Section %s." % self.cname]
+        for g, t in GLOBALS2:
+            lines.append("Variable %s : %s." % (g, t))
+        lines.append("")
+        for _n, d in self.defs:
+            lines.append(d)
+            lines.append("")
+        sig = " ".join("(%s : %s)" % (p, COQ_T[t]) for p, t in self.params)
+        lines.append("Definition %s %s (st : nstate) :=\n%s." % (self.cname, sig, main))
+        lines.append("End %s.\n" % self.cname)
+        self.text = "\n".join(lines)
+        for p, _t in self.params:
+            if not used_globals([p], main):
+                raise Unsupported("parameter %s unused" % p)
+        return self.text
+
+
+def method_node(cls, name):
+    fns = [n for n in cls.body if isinstance(n, ast.FunctionDef) and n.name == name]
+    if len(fns) != 1:
+        raise Unsupported("method %s" % name)
+    return fns[0]
+
+
 def generate(repo):
     with open(os.path.join(repo, SOURCE)) as f:
         tree = ast.parse(f.read())
@@ -527,11 +1096,23 @@ def generate(repo):
     if len(cls) != 1:
         raise Unsupported("class NexusReader")
     out = [HEADER]
+    registry = {}
     for name in FUNCS:
-        fns = [n for n in cls[0].body if isinstance(n, ast.FunctionDef) and n.name == name]
-        if len(fns) != 1:
-            raise Unsupported("method %s" % name)
-        out.append(Fn(fns[0]).emit())
+        fn = Fn(method_node(cls[0], name))
+        fn.text = fn.emit()
+        fn.ret_type = None
+        fn.returns_param = None
+        last = fn.node.body[-1]
+        if isinstance(last, ast.Return) and isinstance(last.value, ast.Name):
+            if last.value.id not in [p for p, _t in fn.params]:
+                raise Unsupported("%s returns a local" % name)
+            fn.returns_param = last.value.id
+        registry[name] = fn
+        out.append(fn.text)
+    for name in FUNCS2:
+        fn = Fn2(method_node(cls[0], name), registry)
+        out.append(fn.emit())
+        registry[name] = fn
     return "\n".join(out)
 
 
